@@ -122,6 +122,12 @@ def check_C16(rep, known):
     rep.add_tlc(st)
     outs = engine.pool_map('der', 'replay', recs)
     engine.process_results(rep, recs, outs, [r'C16\.'], known)
+    # der() of expressions that involve B-spline signals (and explicit time): the spline family carries these clauses
+    recs, st = tlc.generate('ScenSpline', 'ScenSpline.cfg', 'C17', rep.tier, rep.seed, parts=1)
+    rep.add_tlc(st)
+    recs = [r for r in recs if r['sc']['d'] >= 1]
+    outs = engine.pool_map('splines', 'replay', recs)
+    engine.process_results(rep, recs, outs, [r'C16\.', r'C17\.b:der'], known)
 
 
 def check_C12(rep, known):
@@ -247,6 +253,19 @@ def check_C14(rep, known):
 
 def check_C18(rep, known):
     life_job(rep, [r'C18\.', r'C13\.d:outcome@\d+:save'], known)
+    # the exact families replayed through save/load: the *loaded* object must conform to the same predictions
+    # (all variable kinds, free time, DAE + collocation, scaling, guesses, parameter kinds)
+    import random
+    rng = random.Random(rep.seed)
+    for fam, n in (('C02', 150), ('C11', 150), ('C14', 150), ('C09', 150), ('C10', 150)):
+        recs, st = tlc.generate('ScenShoot', 'ScenShoot.cfg', fam, rep.tier, rep.seed, parts=16)
+        rep.add_tlc(st)
+        recs = [r for r in recs if not r['decl'].get('xblocks') and r['sc'].get('when', 'before') == 'before']
+        recs = rng.sample(recs, min(len(recs), n * (8 if rep.tier == 'thorough' else 1)))
+        recs = [dict(r, saveload=True) for r in recs]
+        outs = engine.pool_map('replay_nlp', 'replay', recs)
+        engine.process_results(rep, recs, outs, [r'C18\.', r'build', r'varmap'], known,
+                               sig_fn=lambda r: 'saveload:' + json.dumps(r['sc'], sort_keys=True))
 
 
 CHECKS = {'C15': check_C15, 'C08': check_C08, 'C07': check_C07, 'C02': check_C02, 'C06': check_C06, 'C01': check_C01, 'C04': check_C04, 'C05': check_C05, 'C13': check_C13, 'C03': check_C03, 'C19': check_C19, 'C17': check_C17, 'C12': check_C12, 'C16': check_C16, 'C20': check_C20, 'C18': check_C18, 'C09': check_C09, 'C10': check_C10, 'C11': check_C11, 'C14': check_C14}
